@@ -744,7 +744,7 @@ theorem pt_byType_mem : ∀ (cs co ro ca : List Box), byType cs = .ok (co, ro, c
           · exact m3 x hx
         · cases h
 
-/-- `wrapGo_spec` as a partial-correctness statement -/
+/-- `wrapGo_spec` in the form "if the run succeeds, then …" (no totality of `wrap` needed) -/
 theorem pt_wrapGo (wrap : List Box → R Box) (flex : Bool) (test : Box → Bool) (Q P : Box → Prop)
     (hw : ∀ l w, l ≠ [] → (∀ x ∈ l, Q x) → wrap l = .ok w → P w) :
     ∀ cs imp r, (∀ x ∈ cs, test x = false → Q x) → (∀ x ∈ cs, test x = true → P x) →
@@ -1185,7 +1185,7 @@ theorem pt_tbc_other (f : Nat) (ih : pt_TbcOK f) (box : Box) (c0 : List Box) (r 
   subst hfin
   exact pt_setKids_good box it3 hb ht s3
 
-/-- partial correctness of `tbc` for every fuel -/
+/-- whenever `tbc` succeeds (any fuel) its result is good -/
 theorem pt_tbc_good : ∀ f, pt_TbcOK f := by
   intro f
   induction f with
@@ -1198,5 +1198,233 @@ theorem pt_tbc_good : ∀ f, pt_TbcOK f := by
     cases ht : isTable box.ty
     · exact pt_tbc_other f ih box c0 r ht hb hc0 h
     · exact pt_tbc_table f ih box c0 r ht hb hc0 h
+
+
+/-! ### (4) the induction over `anonTable` -/
+
+-- `pt_rawOK` (rawOK plus: every cell child spans at least one column, see `pt_cx1`) is defined in Shape2.lean
+
+theorem pt_rawOK_rawOK (b : Box) (h : allW pt_rawOK b = true) : allW rawOK b = true :=
+  pt_allW_mono pt_rawOK rawOK (fun ty a k c h => by
+    simp only [pt_rawOK, Bool.and_eq_true] at h; exact h.1) b h
+
+theorem pt_rawOK_iff (ty : Ty) (a : Attrs) (kids cols : List Box) : pt_rawOK ty a kids cols = true ↔
+  (((((rawTy ty = true ∧ cols = []) ∧ a.tw = false) ∧ (isParent ty = true ∨ kids = [])) ∧
+        ∀ (x : Box), x ∈ kids → rawTy x.ty = true ∧ (x.ty == Ty.inline && x.a.running) = false) ∧
+      (ty ≠ Ty.tableCell ∨ 1 ≤ a.colspan)) ∧
+    ∀ (x : Box), x ∈ kids → x.ty ≠ Ty.tableCell ∨ 1 ≤ x.a.colspan := by
+  simp only [pt_rawOK, rawOK, Bool.and_eq_true, Bool.or_eq_true, Bool.not_eq_true', List.all_eq_true,
+    List.isEmpty_iff, beq_eq_false_iff_ne, decide_eq_true_eq]
+
+/-- what `anonTable` makes of a raw box -/
+def pt_AR (b r : Box) : Prop :=
+  pt_Good r ∧ ((isTable b.ty = false ∨ b.a.running = true) → r.ty = b.ty ∧ r.a = b.a) ∧
+    (isTable b.ty = true → b.a.running = false → (r.ty = .block ∨ r.ty = .inlineBlock) ∧ r.a.running = false)
+
+theorem pt_kok_of (t : Ty) (run csok : Bool) : rawTy t = true → (t == .inline && run) = false →
+    (isTable t = false ∨ run = true) → (t = .tableCell → csok = true) → pt_kok t run csok = true := by
+  cases t <;> cases run <;> cases csok <;> decide
+
+theorem pt_C_of_AR (k x : Box) (har : pt_AR k x) (h1 : rawTy k.ty = true)
+    (h2 : (k.ty == .inline && k.a.running) = false) (h3 : k.ty ≠ .tableCell ∨ 1 ≤ k.a.colspan) : pt_C x := by
+  refine ⟨har.1, ?_⟩
+  unfold pt_kidOK
+  by_cases hcase : isTable k.ty = false ∨ k.a.running = true
+  · obtain ⟨e1, e2⟩ := har.2.1 hcase
+    rw [e1, e2]
+    apply pt_kok_of _ _ _ h1 h2 hcase
+    intro hc
+    rcases h3 with h3 | h3
+    · exact absurd hc h3
+    · simpa using h3
+  · have ht : isTable k.ty = true := by
+      cases h : isTable k.ty
+      · exact absurd (Or.inl h) hcase
+      · rfl
+    have hr : k.a.running = false := by
+      cases h : k.a.running
+      · rfl
+      · exact absurd (Or.inr h) hcase
+    obtain ⟨e1, e2⟩ := har.2.2 ht hr
+    rw [e2]
+    generalize decide (1 ≤ x.a.colspan) = cs
+    rcases e1 with e1 | e1 <;> rw [e1] <;> cases cs <;> decide
+
+mutual
+  theorem pt_anonTable_AR : ∀ (b r : Box), allW pt_rawOK b = true → anonTable b = .ok r → pt_AR b r
+    | .mk ty a kids cols, r, hraw, h => by
+      rw [anonTable] at h
+      rw [pt_allW_mk] at hraw
+      split at h
+      · rename_i hs
+        simp only [pure, Except.pure, Except.ok.injEq] at h
+        subst h
+        refine ⟨?_, fun _ => ⟨rfl, rfl⟩, ?_⟩
+        · cases hrun : a.running
+          · rw [hrun] at hraw hs
+            simp only [Bool.false_or, Bool.and_eq_true, Bool.or_false, Bool.not_eq_true'] at hraw hs
+            obtain ⟨⟨⟨⟨⟨⟨r1, r2⟩, r3⟩, r4⟩, _⟩, _⟩, _⟩ := (pt_rawOK_iff _ _ _ _).mp hraw.1.1
+            have hs : isParent ty = false := hs
+            rw [hs] at r4
+            rcases r4 with r4 | r4
+            · cases r4
+            · subst r4; subst r2
+              exact pt_good_leaf ty a r1 r3
+          · exact Or.inl hrun
+        · intro ht hr
+          exfalso
+          have ht : isTable ty = true := ht
+          have hr : a.running = false := hr
+          have hp : isParent ty = true := by
+            rcases tb_isTable_cases _ ht with e | e <;> rw [e] <;> rfl
+          rw [hp, hr] at hs
+          exact absurd hs (by decide)
+      · rename_i hs
+        have hp : isParent ty = true := by
+          cases hpp : isParent ty
+          · rw [hpp] at hs; exact absurd rfl hs
+          · rfl
+        have hrun : a.running = false := by
+          cases hrr : a.running
+          · rfl
+          · rw [hrr] at hs; simp at hs
+        obtain ⟨ks, eks, h⟩ := pt_bind_ok h
+        rw [hrun] at hraw
+        simp only [Bool.false_or, Bool.and_eq_true] at hraw
+        obtain ⟨⟨⟨⟨⟨⟨r1, r2⟩, r3⟩, _⟩, r5⟩, r6⟩, r7⟩ := (pt_rawOK_iff _ _ _ _).mp hraw.1.1
+        have hlist := pt_anonTableList_AR kids ks hraw.1.2 eks
+        have hC : ∀ x ∈ ks, pt_C x := by
+          intro x hx
+          obtain ⟨k, hk, har⟩ := hlist x hx
+          exact pt_C_of_AR k x har (r5 k hk).1 (r5 k hk).2 (r7 k hk)
+        have hb : pt_H (.mk ty a kids cols) := ⟨hrun, r3, r1, hp, r2, fun hc => by
+          rcases r6 with r6 | r6
+          · exact absurd hc r6
+          · exact r6⟩
+        have hres := pt_tbc_good tbcFuel _ _ _ h hb hC
+        refine ⟨hres.1, ?_, fun ht _ => hres.2.2 ht⟩
+        intro hcase
+        rcases hcase with hcase | hcase
+        · exact hres.2.1 hcase
+        · have hcase : a.running = true := hcase
+          rw [hrun] at hcase; cases hcase
+  theorem pt_anonTableList_AR : ∀ (l rs : List Box), allWList pt_rawOK l = true → anonTableList l = .ok rs →
+      ∀ x ∈ rs, ∃ k ∈ l, pt_AR k x
+    | [], rs, _, h => by
+      rw [anonTableList] at h
+      simp only [pure, Except.pure, Except.ok.injEq] at h
+      subst h
+      intro x hx; cases hx
+    | k :: ks, rs, hraw, h => by
+      rw [anonTableList] at h
+      obtain ⟨k', ek, h⟩ := pt_bind_ok h
+      obtain ⟨ks', eks, h⟩ := pt_bind_ok h
+      simp only [pure, Except.pure, Except.ok.injEq] at h
+      subst h
+      rw [allWList] at hraw
+      simp only [Bool.and_eq_true] at hraw
+      intro x hx
+      rcases List.mem_cons.mp hx with rfl | hx
+      · exact ⟨k, List.mem_cons_self, pt_anonTable_AR k x hraw.1 ek⟩
+      · obtain ⟨k0, hk0, har⟩ := pt_anonTableList_AR ks ks' hraw.2 eks x hx
+        exact ⟨k0, List.mem_cons_of_mem _ hk0, har⟩
+end
+
+/-- the strengthened result: `pt_post` (= `postTable` and "cell children span ≥ 1 column") everywhere -/
+theorem anonTable_pt_post (b : Box) (h : allW pt_rawOK b = true)
+    (hroot : b.ty ≠ .tableRowGroup ∨ b.a.running = true) :
+    ∃ r, anonTable b = .ok r ∧ allW pt_post r = true ∧
+      (isTable b.ty = false ∨ b.a.running = true → r.ty = b.ty ∧ r.a = b.a) ∧
+      (isTable b.ty = true → b.a.running = false → (r.ty = .block ∨ r.ty = .inlineBlock) ∧ r.a.running = false) := by
+  obtain ⟨r, hr⟩ := anonTable_total b
+  obtain ⟨g, a1, a2⟩ := pt_anonTable_AR b r h hr
+  refine ⟨r, hr, ?_, a1, a2⟩
+  by_cases hcase : isTable b.ty = false ∨ b.a.running = true
+  · obtain ⟨e1, e2⟩ := a1 hcase
+    rcases hroot with hroot | hroot
+    · exact pt_good_allW r g (by rw [e1]; exact hroot)
+    · rw [pt_allW_eq, e2, hroot]; rfl
+  · have ht : isTable b.ty = true := by
+      cases h : isTable b.ty
+      · exact absurd (Or.inl h) hcase
+      · rfl
+    have hrn : b.a.running = false := by
+      cases h : b.a.running
+      · rfl
+      · exact absurd (Or.inr h) hcase
+    apply pt_good_allW r g
+    rcases (a2 ht hrn).1 with e | e <;> rw [e] <;> decide
+
+/-- MAIN (`table_fixup_wf`), with the two hypotheses the counterexamples `pt_cx1` / `pt_cx2` force:
+    cell children span at least one column (also when running), and the root is not a bare row group -/
+theorem anonTable_postTable' (b : Box) (h : allW pt_rawOK b = true)
+    (hroot : b.ty ≠ .tableRowGroup ∨ b.a.running = true) :
+    ∃ r, anonTable b = .ok r ∧ allW postTable r = true ∧
+      (isTable b.ty = false ∨ b.a.running = true → r.ty = b.ty ∧ r.a.running = b.a.running) ∧
+      (isTable b.ty = true → b.a.running = false → (r.ty = .block ∨ r.ty = .inlineBlock)) := by
+  obtain ⟨r, hr, hp, a1, a2⟩ := anonTable_pt_post b h hroot
+  refine ⟨r, hr, pt_allW_mono pt_post postTable pt_post_postTable r hp, ?_, fun ht hrn => (a2 ht hrn).1⟩
+  intro hc
+  obtain ⟨e1, e2⟩ := a1 hc
+  exact ⟨e1, by rw [e2]⟩
+
+/-- the form used with `wfRoot`: a block-level root is never a bare row group -/
+theorem anonTable_postTable_blockRoot (b : Box) (h : allW pt_rawOK b = true) (hb : isBlockLevel b.ty = true) :
+    ∃ r, anonTable b = .ok r ∧ allW postTable r = true ∧
+      (isTable b.ty = false ∨ b.a.running = true → r.ty = b.ty ∧ r.a.running = b.a.running) ∧
+      (isTable b.ty = true → b.a.running = false → (r.ty = .block ∨ r.ty = .inlineBlock)) :=
+  anonTable_postTable' b h (Or.inl (by intro e; rw [e] at hb; exact absurd hb (by decide)))
+
+/-! ### non-vacuity -/
+
+/-- a block holding a stray cell (with a text) and a table whose row sits directly in it and has two
+    cells, one of them spanning two rows -/
+def pt_demo : Box :=
+  .mk .block {} [
+    .mk .tableCell { colspan := 1, rowspan := 1 } [ .mk .text { text := "x" } [] [] ] [],
+    .mk .table {} [
+      .mk .tableRow {} [
+        .mk .tableCell { colspan := 1, rowspan := 2 } [] [],
+        .mk .tableCell { colspan := 2, rowspan := 1 } [] [] ] [] ] [] ] []
+
+theorem pt_demo_raw : allW rawOK pt_demo = true := by decide
+theorem pt_demo_raw' : allW pt_rawOK pt_demo = true := by decide
+theorem pt_demo_post : (match anonTable pt_demo with | .ok r => allW postTable r | .error _ => false) = true := by
+  decide
+theorem pt_demo_ok : ∃ r, anonTable pt_demo = .ok r ∧ allW postTable r = true := by
+  obtain ⟨r, hr, hp, _⟩ := anonTable_postTable' pt_demo pt_demo_raw' (Or.inl (by decide))
+  exact ⟨r, hr, hp⟩
+
+
+/-
+  Summary.
+
+  Proved (no hypotheses other than those shown):
+  * `pt_rowsGo_bound`, `pt_rowsGo_gridOKw`, `pt_groupGo_gridOKw` — deliverable (1): slots of the `rowsGo` /
+    `groupGo` output stay inside the group, spans ≥ 1, `gridOKw .tableRowGroup out = true`, given
+    colspan ≥ 1 of the visible input cells.
+  * `pt_loc_attr`, `pt_loc_transfer`, `pt_good_setA`, `pt_allW_setA`, `pt_row_after`, `pt_colgroup_fix`,
+    `pt_assignCols_good`, `pt_splitGroups_P`, `pt_groupGo_good`, `pt_groupsGo_good` — deliverable (2):
+    the attribute rewrites of `wrapTable` do not disturb the local clauses.
+  * `pt_wrapper_good`, `pt_setKids_good`, `pt_wrapTable_good`, `pt_tbc_table`, `pt_tbc_other`,
+    `pt_tbc_good` — deliverable (3), for EVERY fuel, in the form "if `tbc f box c0 = .ok r` then …"
+    (totality is `tbc_total_res` of LemmasTable.lean).
+  * `pt_anonTable_AR` / `pt_anonTableList_AR`, `anonTable_pt_post`, `anonTable_postTable'` — deliverable (4).
+  * `pt_post_postTable` : `pt_post → postTable` pointwise; `pt_rawOK_rawOK` : `allW pt_rawOK → allW rawOK`.
+
+  NOT proved, because it is false as stated:
+      theorem anonTable_postTable (b : Box) (h : allW rawOK b = true) : ∃ r, anonTable b = .ok r ∧ allW postTable r = true ∧ …
+  * `pt_cx1` (`pt_cx1_raw`, `pt_cx1_bad`): block ⊃ table ⊃ row group ⊃ row ⊃ RUNNING cell with colspan 0.
+    `allW rawOK` does not visit the running cell, so its `colspan ≥ 1` clause is never checked, but
+    `gridOKw` of the row group reads the colspan of every child of a non-running row.
+    Repair used here: `pt_rawOK` = `rawOK` ∧ "every `.tableCell` child has colspan ≥ 1" (true of the Go
+    constructor).  An alternative repair on the spec side: let `gridOKw`/`gridOK` skip running cells.
+  * `pt_cx2` (`pt_cx2_raw`, `pt_cx2_bad`): the root itself is a non-running `.tableRowGroup`; it is never
+    handed to `wrapTable`, so its cells keep GridX 0 / the raw rowspan.  Repair used here: hypothesis
+    `b.ty ≠ .tableRowGroup ∨ b.a.running = true` (implied by `wfRoot`'s "block-level non-table root",
+    e.g. by `isBlockLevel b.ty = true`).
+  With these two hypotheses the statement is `anonTable_postTable'`; the conclusion is literally the
+  requested one.
+-/
 
 end WR.C09
